@@ -38,7 +38,9 @@ class Cfg:
         if self.bool: f.append("-b")
         if self.ips: f.append("-i")
         if self.ns: f.append("-w")
-        if self.eager: f += ["-f", self.eager_ns or EAGER_NS]
+        if self.eager:
+            for pre in (self.eager_ns if isinstance(self.eager_ns, (list, tuple)) else [self.eager_ns or EAGER_NS]):
+                f += ["-f", pre]
         if self.re: f += ["-z", self.regexp()]
         if self.replacement is not None: f += ["-r", self.replacement]
         return f
@@ -212,7 +214,8 @@ class Concretiser:
         elif cls == "dollar" and self.fn_style and not m:
             okz = lab == "ref" and in_zone(path) and not (path[2] == "documents" and not self._has_insert)
             name = self.fn_family()[self.n % 4] if okz else "Ufn%dr" % self.idx
-            s = "$" + name
+            # a field reached through an aggregation variable is a reference to that field as well
+            s = ("$", "$", "$$ROOT.", "$", "$$CURRENT.", "$$this.", "$")[idn % 7 if v else 0] + name
             node, tok = ('str', s), name
         elif cls == "dollar":
             s = ("$zzsecret%d" % idn) if m else ("$zr%dx" % idn if v == 0 else rng.choice(["$zr%dx", "$zr%dx.sub", "$$zr%dx"]) % idn)
